@@ -207,6 +207,12 @@ func ms2Variants() map[string]ms2Variant {
 			defer func() { l.shift = old }()
 			return model2d.MarchingSquaresFilter(l, geomFilter2(l), 1), 0
 		}, nil},
+		{"MSFilterGeomHi", func(l *latticeSolid2, _ *rand.Rand) (*model2d.Mesh, int) {
+			old := l.shift
+			l.shift = 2047.0 / 2048
+			defer func() { l.shift = old }()
+			return model2d.MarchingSquaresFilter(l, geomFilter2(l), 1), 0
+		}, nil},
 	}
 	out := map[string]ms2Variant{}
 	for _, v := range vs {
@@ -316,7 +322,11 @@ func satellite2(rng *rand.Rand, n int) *latticeSolid2 {
 	for k := 0; k < 1+rng.Intn(3); k++ {
 		p := [2]int{1 + rng.Intn(n), 1 + rng.Intn(n)}
 		if k == 0 {
-			p[rng.Intn(2)] = n - rng.Intn(4)
+			a := rng.Intn(2)
+			p[a] = lo[a] + sz[a] + 2 + rng.Intn(n)
+			if p[a] > n {
+				p[a] = n - rng.Intn(3)
+			}
 		}
 		axis, length := rng.Intn(2), 1+rng.Intn(2)
 		for i := 0; i < length && p[axis] <= n; i++ {
@@ -325,6 +335,34 @@ func satellite2(rng *rand.Rand, n int) *latticeSolid2 {
 		}
 	}
 	return l
+}
+
+func aligned2(rng *rand.Rand, n int, f func(*latticeSolid2)) {
+	for a := 0; a < 2; a++ {
+		for k := 2; k <= n; k++ {
+			for _, up := range []bool{true, false} {
+				l := newLatticeSolid2(n, n, 0)
+				var lo, hi [2]int
+				for b := 0; b < 2; b++ {
+					lo[b] = 2 + rng.Intn(n/2-1)
+					hi[b] = n/2 + 1 + rng.Intn(n/2-1)
+				}
+				if up {
+					lo[a], hi[a] = k, k+rng.Intn(3)
+				} else {
+					lo[a], hi[a] = k-rng.Intn(3), k
+				}
+				for y := lo[1]; y <= hi[1]; y++ {
+					for x := lo[0]; x <= hi[0]; x++ {
+						if x >= 1 && y >= 1 && x <= n && y <= n {
+							l.inside[x-1+n*(y-1)] = true
+						}
+					}
+				}
+				f(l)
+			}
+		}
+	}
 }
 
 func init() {
@@ -391,6 +429,8 @@ func init() {
 				for i := 0; i < atoi(f[3]); i++ {
 					emitMS(blocky2(rng, atoi(f[2]), 4), f[4], f[5])
 				}
+			case "ms:aligned":
+				aligned2(rng, atoi(f[2]), func(l *latticeSolid2) { emitMS(l, f[3], f[4]) })
 			case "ms:sat":
 				for i := 0; i < atoi(f[3]); i++ {
 					emitMS(satellite2(rng, atoi(f[2])), f[4], f[5])
